@@ -6,6 +6,9 @@ part of the path hy2py takes)."""
 
 NAMES = ["a", "b", "c", "a-b", "x?", "*v*", "if", "class", "def", "lambda", "pass", "is", "in", "with", "as", "from",
          "ﬁ", "naïve", "λ", "_p", "--q", "match", "type", "print-me"]
+KW_NAMES = {"if", "class", "def", "lambda", "pass", "is", "in", "with", "as", "from"}
+NAMES_PLAIN = [n for n in NAMES if n not in KW_NAMES]
+BARE_KW = ["continue", "break", "return", "yield", "pass", "raise"]
 EXCS = ["ValueError", "KeyError", "ZeroDivisionError", "TypeError", "IndexError"]
 
 
@@ -16,13 +19,15 @@ class RG:
         self.k = 0
         self.defined = []
         self.funcs = []
+        self.plain = False       # a program without any keyword-named identifier
+        self.names = NAMES
 
     def key(self):
         self.k += 1
         return self.k
 
     def name(self):
-        return self.r.choice(NAMES)
+        return self.r.choice(self.names)
 
     def var(self):
         if self.defined and self.r.random() < 0.985:
@@ -71,9 +76,9 @@ class RG:
             return "(%s %s)" % (r.choice(["-", "+", "not", "bnot"]), e())
         if k < 0.26:
             # negative literals in operand positions that bind tighter than unary minus
-            neg = r.choice(["-1", "-2", "-5", "-1.5", "-2j", "(- 2)", "(- 1.5)", "(- 3)", "(+ 2)", "(- (- 2))", "-0.0"])
+            neg = r.choice(["-1", "-2", "-5", "-1.5", "-2j", "(- 2)", "(- 1.5)", "(- 3)", "(+ 2)", "(- (- 2))", "-0.0", "-0.0", "(- 0.0)"])
             return r.choice(["(** %s 2)", "(.conjugate %s)", "(. %s real)", "(get [1 2 3] %s)", "(abs %s)", "(** 2 %s)",
-                             "(.bit-length (int %s))", "(** %s 3)", "(str (. %s imag))"]) % neg
+                             "(.bit-length (int %s))", "(** %s 3)", "(str (. %s imag))", "(.hex (float %s))", "(str (** %s 2))"]) % neg
         if k < 0.34:
             op = r.choice(["=", "<", "<=", "!=", ">", "is", "in", "not-in", "is-not"])
             if op in ("in", "not-in"):
@@ -126,7 +131,7 @@ class RG:
         if self.funcs and r.random() < 0.7:
             f, n = r.choice(self.funcs)
             return "(%s %s)" % (f, " ".join(e() for _ in range(n)))
-        return r.choice(["(zq_kw :a-b %s :if %s)", "(zq_sum #* [%s %s])", "(.upper (str %s))" + "%.0s", "(chainc %s < %s)"]) % (e(), e())
+        return r.choice(["(zq_kw :a-b %s :k %s)" if self.plain else "(zq_kw :a-b %s :if %s)", "(zq_sum #* [%s %s])", "(.upper (str %s))" + "%.0s", "(chainc %s < %s)"]) % (e(), e())
 
     def with_defined(self, v, f):
         had = v in self.defined
@@ -168,7 +173,7 @@ class RG:
         out = "(match %s" % subj
         for _ in range(r.randint(1, 3)):
             v = self.name()
-            if r.random() < 0.35:
+            if r.random() < 0.35 and not self.plain:
                 # binding positions of patterns with names that are Python keywords (MatchAs.name, MatchStar.name, MatchMapping.rest)
                 v = r.choice(["if", "class", "def", "lambda", "pass", "is", "in", "with", "as", "from"])
             pat = r.choice(["1", '"s"', "None", "[1 %s]" % v, "[%s #* zq-rest]" % v, '{"k" %s}' % v, "(| 1 2)", "(| 3 4) :as %s" % v,
@@ -184,8 +189,27 @@ class RG:
             return "(do %s)" % s.replace("\n", " ")
         return s
 
+    def bare_keyword_statement(self, d):
+        """a bare symbol named like a Python statement keyword, as a non-final body form where that statement would be legal:
+        compiled it is Expr(Name(...)) (a NameError at run time); printed unminced it would be the statement itself"""
+        r = self.r
+        kw = r.choice(BARE_KW)
+        a, b = self.key(), self.key()
+        if kw in ("continue", "break"):
+            v = "zq_j%d" % self.key()
+            if r.random() < 0.5:
+                return "(for [%s [1 2 3]] (zq_log %d %s) %s (zq_log %d %s))" % (v, a, v, kw, b, v)
+            return "(setv %s 0) (while (< %s 3) (+= %s 1) (zq_log %d %s) %s (zq_log %d %s))" % (v, v, v, a, v, kw, b, v)
+        f = "zq-b%d" % self.key()
+        call = "(zq_log %d (list (%s)))" % (self.key(), f) if kw == "yield" else "(zq_log %d (%s))" % (self.key(), f)
+        if kw == "raise":
+            return "(defn %s [] (try (/ 1 0) (except [ZeroDivisionError] (zq_log %d 1) raise (zq_log %d 2))))\n%s" % (f, a, b, call)
+        return "(defn %s [] (zq_log %d 1) %s (zq_log %d 2))\n%s" % (f, a, kw, b, call)
+
     def stmt1(self, d=0):
         r = self.r
+        if self.plain and r.random() < 0.12:
+            return self.bare_keyword_statement(d)
         k = r.random()
         e = lambda: self.expr(d + 1)  # noqa
         if d >= self.max_depth:
@@ -267,7 +291,10 @@ class RG:
         self.defined = []
         self.funcs = []
         n = self.r.randint(2, 7)
+        # one program in four uses no keyword-named identifier at all (its printed form parses without any mincing)
+        self.plain = self.r.random() < 0.25
+        self.names = NAMES_PLAIN if self.plain else NAMES
         # every name starts out bound, so that most programs run to the end
-        pre = "(setv %s)\n" % " ".join("%s %d" % (nm, i) for i, nm in enumerate(NAMES))
-        self.defined = list(NAMES)
+        pre = "(setv %s)\n" % " ".join("%s %d" % (nm, i) for i, nm in enumerate(self.names))
+        self.defined = list(self.names)
         return pre + "\n".join(self.stmt(0) if self.r.random() < 0.75 else self.expr(0) for _ in range(n)) + "\n"
